@@ -914,6 +914,11 @@ func (r *messageReader) Read(b []byte) (int, error) {
 				b = b[:c.readRemaining]
 			}
 			n, err := c.br.Read(b)
+			if err == io.EOF && int64(n) == c.readRemaining {
+				// the frame is complete: the end of the stream is the next
+				// advanceFrame's business, not this message's
+				err = nil
+			}
 			c.readErr = hideTempErr(err)
 			rem := c.readRemaining
 			rem -= int64(n)
